@@ -73,11 +73,12 @@ Insert(i, k) == toks' = SubSeq(toks, 1, i - 1) \o <<Lexicon[k]>> \o SubSeq(toks,
 Delete(i) == toks' = SubSeq(toks, 1, i - 1) \o SubSeq(toks, i + 1, Len(toks))
 Replace(i, k) == toks' = [toks EXCEPT ![i] = Lexicon[k]]
 Duplicate(i) == toks' = SubSeq(toks, 1, i) \o SubSeq(toks, i, Len(toks))
+Truncate(i) == toks' = SubSeq(toks, 1, i)             \* the text ends after token i (errors at the end of input)
 Next == /\ depth < MaxDepth /\ Expand
         /\ depth' = depth + 1 /\ seed' = seed
         /\ \E i \in Positions(toks, depth) :
              \/ \E k \in LexAt(depth) : (Insert(i, k) \/ Replace(i, k)) /\ first' = IF depth = 0 THEN <<i, k>> ELSE first
-             \/ (Delete(i) \/ Duplicate(i)) /\ first' = IF depth = 0 THEN <<i, 0>> ELSE first
+             \/ (Delete(i) \/ Duplicate(i) \/ Truncate(i)) /\ first' = IF depth = 0 THEN <<i, 0>> ELSE first
 Spec == Init /\ [][Next]_vars
 
 Emit == PrintT(<<"REPLAY", ToJson([kind |-> "total", entry |-> Seeds[seed].entry, tokens |-> toks, depth |-> depth])>>)
